@@ -488,6 +488,11 @@ fn floats<R: ModeTag, const B: dashu_int::Word>(v: &mut Vec<Case>, ty: &'static 
             hcase!("FBig(huge exponent)::to_f32/to_f64 via Repr", "Repr::to_f64", |a: &FBig<R, B>| (a.repr().to_f32(), a.repr().to_f64()));
         }
     }
+    for sg in [1u128, 10u128.pow(38), 10u128.pow(38) + 1, u128::MAX - 10, u128::MAX, 3u128.pow(80), 1u128 << 127] {
+        for e in [0isize, -3, 7] {
+            v.push(Case { name: "FBig::from_parts_const(large significands)", text: format!("{} from_parts_const(-, {}, {}, None)", ty, sg, e), expect: Expect::NoPanic, run: Box::new(move || guard(|| show(FBig::<R, B>::from_parts_const(dashu_base::Sign::Negative, sg as dashu_int::DoubleWord, e, None)))) });
+        }
+    }
     v.push(Case { name: "FBig::from_parts_const/from_repr_const/from_str_native", text: format!("{} const constructors", ty), expect: Expect::NoPanic, run: Box::new(move || guard(|| {
         #[allow(deprecated)]
         let n = FBig::<R, B>::from_str_native("1.01").is_ok();
@@ -570,6 +575,20 @@ fn parser_strings(max_len: usize) -> Vec<String> {
     }
     for s in ["1e", "1e+", "1e-", "0x", "0x.", "1/", "/1", "1/0", "-1/-1", "1//2", "1_/2", "~1/2", "1e99999999999999999999", "1e-99999999999999999999", "0x1p99999999999999999999", "9".repeat(400).as_str(), "1_000_000_000_000_000_000_000/3", "é", "1é", "٣", "１２", "1 ", " 1", "\u{0}", "1\n", "+-1", "--1", "1.2.3", "1e1e1", "inf", "-inf", "nan", "0b102", "0o8", "1.e5", ".e5", "1.5/2", "1/2.5"] {
         v.push(s.to_string());
+    }
+    // digit strings with separators whose length with and without the separators falls on different
+    // sides of the thresholds of the integer parser (one word / chunk / divide-and-conquer)
+    for digits in [19usize, 20, 39, 600, 2500, 4000, 4864, 5000] {
+        for every in [1usize, 3, 7] {
+            let mut t = String::new();
+            for k in 0..digits {
+                t.push(char::from(b'1' + (k % 9) as u8));
+                if k % every == every - 1 && k + 1 < digits {
+                    t.push('_');
+                }
+            }
+            v.push(t);
+        }
     }
     v
 }
